@@ -4,6 +4,11 @@ CONSTANTS
   Ordering = "minmax"
   ZS = 100
   Z <- MCZ
+  TK = {5,8,12,20,30,34,40,47,52,53,54,60,100,332,997,1022,1074}
+  HiMax = 53
+  ZTS = 100
+  ZT <- MCZT
+  Delivery = "by_prior"
   QNum = {0,7,11,12,13,15,24,1012}
   QShift = 12
   QDen = {1,4}
@@ -13,7 +18,10 @@ CONSTANTS
   SDen = {1,10}
   Export = FALSE
 INVARIANT ZOk
+INVARIANT TZOk
 INVARIANT MonotoneInv
+INVARIANT TailMonotoneInv
+INVARIANT TailSymmetricInv
 INVARIANT OntoSupportInv
 INVARIANT InverseCDFInv
 INVARIANT LinArgsInv
